@@ -421,17 +421,22 @@ static std::string handle(const std::vector<std::string>& f0)
         try
         {
             auto a = p.parse(static_cast<int>(av.size()), av.data());
-            try
-            {
-                const std::string& r = a.get(i);
-                if (a[i] != r)
-                    return "operator[]-disagrees";
-                return "ok " + nv::hex(r);
-            }
-            catch (std::out_of_range&)
-            {
-                return "raise";
-            }
+            // get(i) and operator[](i) are the same access: both answer, or both raise
+            auto access = [&](bool subscript) -> std::string {
+                try
+                {
+                    const std::string& r = subscript ? a[i] : a.get(i);
+                    return "ok " + nv::hex(r);
+                }
+                catch (std::out_of_range&)
+                {
+                    return "raise";
+                }
+            };
+            std::string g = access(false), sub = access(true);
+            if (g != sub)
+                return "operator[]-disagrees get:" + g + " subscript:" + sub;
+            return g;
         }
         catch (std::exception&)
         {
